@@ -77,7 +77,7 @@ def sp_conf(spec, metadata_xml=()):
         sp['endpoints']['single_logout_service'] = [tuple(e) for e in spec['slo']]
     for k in ('want_response_signed', 'want_assertions_signed', 'want_assertions_or_response_signed', 'allow_unsolicited',
               'authn_requests_signed', 'logout_requests_signed', 'required_attributes', 'optional_attributes', 'name_id_format',
-              'allow_unknown_attributes', 'requested_attribute_name_format', 'hide_assertion_consumer_service', 'name'):
+              'allow_unknown_attributes', 'requested_attribute_name_format', 'hide_assertion_consumer_service', 'name', 'valid_destination_regex'):
         if k in spec:
             sp[k] = spec[k]
     conf = {'entityid': spec['entityid'], 'service': {'sp': sp}, 'xmlsec_binary': XMLSEC,
@@ -85,7 +85,7 @@ def sp_conf(spec, metadata_xml=()):
             'metadata': {'inline': list(metadata_xml)}}
     if spec.get('enc_keys'):
         conf['encryption_keypairs'] = [{'key_file': key(i), 'cert_file': crt(i)} for i in spec['enc_keys']]
-    for k in ('accepted_time_diff', 'only_use_keys_in_metadata', 'valid_for', 'entity_category', 'valid_destination_regex', 'id_attr_name'):
+    for k in ('accepted_time_diff', 'only_use_keys_in_metadata', 'valid_for', 'entity_category', 'id_attr_name'):
         if k in spec:
             conf[k] = spec[k]
     return conf
